@@ -1,6 +1,6 @@
 (** C12 - Labels are canonical, stable identities confined to the project.
-    Statements only; the proofs are in Label/Proofs.v, Proofs_Path.v, Proofs_Record.v. *)
-From Dawn Require Import Base.Bytes Label.Model Label.Proofs Label.Proofs_Path Label.Proofs_Record.
+    Statements only; the proofs are in Label/Proofs.v, Proofs_Path.v, Proofs_Site.v, Proofs_Record.v. *)
+From Dawn Require Import Base.Bytes Label.Model Label.Proofs Label.Proofs_Path Label.Proofs_Site Label.Proofs_Record.
 Open Scope N_scope.
 
 (** 1. Every accepted label that has a name or has no kind re-parses, from its printed form, to itself. *)
@@ -34,6 +34,26 @@ Theorem source_confined : forall pkg sp q,
   rooted pkg = true -> repo_source_path pkg sp = Some q -> ~ In dotdot (split_on c_slash q).
 Proof. exact source_confined_proof. Qed.
 Print Assumptions source_confined.
+
+(** 4b. Where an accepted generates= entry ends up on disk.  [site_gen root pkg g] is builtin_target's loop:
+    repoSourcePath, strings.Split, filepath.Join(root, filepath.Join(components...)).  For a project at ANY
+    absolute [root], the stored OS path is "/" followed by the components of the cleaned root followed by zero or
+    more components none of which is "..": the root itself or a location below it, element-wise (a sibling
+    directory whose name merely extends the root's name is not of that form). *)
+Theorem generated_inside_root : forall root pkg g p,
+  gp_is_abs root = true -> site_gen root pkg g = Some p ->
+  exists rest, ~ In dotdot rest /\ p = c_slash :: join_with c_slash (gp_clean_comps root ++ rest).
+Proof. exact generated_inside_root_proof. Qed.
+Print Assumptions generated_inside_root.
+
+(** 4c. The same for sources=: [site_src root pkg g] is sourceLabel followed by loadSourceFile's
+    filepath.Join(root, filepath.Join(label.Split(package)[1:]...), name).  (Uses: label.Clean, when it accepts,
+    only drops empty components.) *)
+Theorem source_inside_root : forall root pkg g p,
+  gp_is_abs root = true -> site_src root pkg g = Some p ->
+  exists rest, ~ In dotdot rest /\ p = c_slash :: join_with c_slash (gp_clean_comps root ++ rest).
+Proof. exact source_inside_root_proof. Qed.
+Print Assumptions source_inside_root.
 
 (** 5. url.PathEscape is injective on byte strings. *)
 Theorem path_escape_injective : forall a b,
@@ -101,6 +121,20 @@ Example ex_source_paths :
   repo_source_path [47;47;97] [46;46;47;46;46;47;98] = None /\
   repo_source_path [47;47;97] [47;120;47;46;46;47;121] = Some [47;121] /\
   split_on c_slash [47;121] = [[]; [121]].
+Proof. vm_compute. repeat split; reflexivity. Qed.
+
+(* project at /w/proj: from package // the entry "../proj-o/x" (a sibling whose name extends the root's) is
+   rejected and the rooted "/../proj-o/x" is clamped to /w/proj/proj-o/x; from //s, "../x" is /w/proj/x and
+   "." from // is the root itself; sources= resolve alike *)
+Example ex_sites :
+  site_gen [47;119;47;112;114;111;106] [47;47] [46;46;47;112;114;111;106;45;111;47;120] = None /\
+  site_src [47;119;47;112;114;111;106] [47;47] [46;46;47;112;114;111;106;45;111;47;120] = None /\
+  site_gen [47;119;47;112;114;111;106] [47;47] [47;46;46;47;112;114;111;106;45;111;47;120] = Some [47;119;47;112;114;111;106;47;112;114;111;106;45;111;47;120] /\
+  site_src [47;119;47;112;114;111;106] [47;47] [47;46;46;47;112;114;111;106;45;111;47;120] = Some [47;119;47;112;114;111;106;47;112;114;111;106;45;111;47;120] /\
+  site_gen [47;119;47;112;114;111;106] [47;47;115] [46;46;47;120] = Some [47;119;47;112;114;111;106;47;120] /\
+  site_src [47;119;47;112;114;111;106] [47;47;115] [46;46;47;120] = Some [47;119;47;112;114;111;106;47;120] /\
+  site_gen [47;119;47;112;114;111;106] [47;47] [46] = Some [47;119;47;112;114;111;106] /\
+  gp_clean_comps [47;119;47;112;114;111;106] = [[119]; [112;114;111;106]].
 Proof. vm_compute. repeat split; reflexivity. Qed.
 
 (* //a:x is a persisted label; its record is targets/a%2Fx *)
